@@ -14,6 +14,8 @@
 //	   start of every body and after every statement                         -> fam_c.go
 //	D  every chain of assignments up to a length bound, in the set form and in the
 //	   `do name = expr` form                                                 -> fam_d.go
+//	E  a first assignment to a new variable below every chain of enclosing constructs up to a
+//	   depth bound, read after every enclosing construct closes and by later iterations -> fam_e.go
 package main
 
 import (
@@ -88,9 +90,10 @@ func main() {
 			"(value or key,value header, with/without else, top level / inside an outer loop / over a variable assigned by set) over every list, string " +
 			"and range of the bound, printing index, index0, revindex, revindex0, first, last, length, key and value at every position; (C) every statement " +
 			"tree over {set, if, if/else, if/elseif[/else], for, for/else} up to the size bound with a full state probe at the start of every body and after every " +
-			"statement; (D) every chain of assignments up to the length bound as `set` and as `do name = expr`. Non-trivial = A: the chain has at least two " +
+			"statement; (D) every chain of assignments up to the length bound as `set` and as `do name = expr`; (E) a variable first assigned below every chain of " +
+			"taken if / else / elseif branches, loop bodies and for-else branches up to the depth bound, read after each enclosing construct and in later iterations. Non-trivial = A: the chain has at least two " +
 			"alternatives (elseif or else); B: the sequence has at least two elements, or is empty with an else branch; C: the reference execution enters a " +
-			"loop body or selects among at least two branches; D: a later assignment or print reads an earlier assignment",
+			"loop body or selects among at least two branches; D: a later assignment or print reads an earlier assignment; E: always (every read follows the assignment across a construct boundary)",
 		Assumptions: []string{
 			"bounds: see coverage.bounds; programs larger than the size bound, lists longer than the length bound and ranges outside the grid are not explored",
 			"not demanded (statement silent): loop.* and loop variables after endfor and inside a for-else branch; range() whose step sign contradicts end-start, one-argument range; " +
@@ -104,6 +107,7 @@ func main() {
 			runA(t)
 			runB(t)
 			runD(t)
+			runE(t)
 			runC(t)
 		},
 		Extra: func(tier string, cov map[string]interface{}) {
@@ -119,6 +123,7 @@ func boundsDoc(tier string) map[string]interface{} {
 			len(atoms()), nCtxAtoms(), len(atoms())-nCtxAtoms(), map[bool]string{false: "a 14-atom representative subset", true: "all atoms"}[th]),
 		"B": bBoundsDoc(th),
 		"C": cBoundsDoc(th),
+		"E": fmt.Sprintf("every chain of 1..%d enclosing constructs from {if (taken), if/else (else taken), if/elseif (elseif taken), for over 3 elements, for over nothing with else} around the first assignment of a new variable", eMaxDepth(th)),
 		"D": fmt.Sprintf("assignment chains of length <= %d over %d assignment statements, set form and do form", dMaxLen(th), len(dAlphabet)),
 	}
 }
